@@ -11,7 +11,7 @@ declare -A PROPS=(
 names="$@"; [ -z "$names" ] && names=$(ls seeded/benign/*.diff | xargs -n1 basename | sed 's/.diff//')
 mkdir -p _build/evidence_keep
 for b in $names; do
-  git -C /repo apply seeded/benign/$b.diff || { echo "$b: patch does not apply"; continue; }
+  git -C /repo apply /verif/seeded/benign/$b.diff || { echo "$b: patch does not apply"; continue; }
   for p in ${PROPS[$b]}; do
     cp -f evidence/$p.json _build/evidence_keep/$p.json 2>/dev/null
     out=$(timeout 3000 python3 check.py $p --tier quick 2>&1 | grep -v "^WARNING")
